@@ -183,6 +183,12 @@ func (p *NamePacket) UnmarshalPacketBody(buf *Buffer) (err error) {
 		return buf.Err
 	}
 
+	// Each entry is two strings and an attribute flags word, so at least 12 bytes long:
+	// a larger count cannot fit, and must not drive the allocation below.
+	if count > buf.Len()/12 {
+		return ErrShortPacket
+	}
+
 	*p = NamePacket{
 		Entries: make([]*NameEntry, 0, count),
 	}
